@@ -1,8 +1,8 @@
 (* C02 entry points of the extracted model and oracle. Written to coq/tt_c02.ml. *)
 From Coq Require Extraction ExtrOcamlBasic ExtrOcamlString.
 From Coq Require Import List Ascii String.
-Require Import TT.Model.Str TT.Model.TypeParse TT.Model.Pipeline TT.Spec.TsLex TT.Spec.TsModule TT.Spec.TsObs.
-Require Import TT.Spec.C02Closed TT.Model.C02Model.
+Require Import TT.Model.Str TT.Model.C07TypeParse TT.Model.Pipeline TT.Spec.TsLex TT.Spec.TsModule TT.Spec.TsObs.
+Require Import TT.Spec.C02Closed TT.Model.C02Model TT.Spec.C02Domain.
 Import ListNotations.
 
 Definition sx_ref (r : ref) : sx :=
@@ -38,7 +38,7 @@ Definition c02_model (p : proj) (zod : bool) : sx :=
       SL [sx_bool (kf_prefix p); sx_bool (kf_event_head p); sx_bool (kf_dup_listener p); sx_bool (kf_collision p zod)];
       sx_bool (refs_declared p);
       sx_report (gen p zod);
-      SL (map SA (used p)); SL (map SA (discovered p))].
+      SL (map SA (used p)); SL (map SA (discovered p)); sx_bool (dom p)].
 
 (* add_types_prefix on one Rust type string: (text-level result of add_types_prefix2,
    shape-level refs, refs of the parsed text-level result) for the small-scope enumeration *)
@@ -48,7 +48,7 @@ Definition c02_atp (rust : str) (real : str) : sx :=
   let parsed := match ptype (lex_module real) with
                 | Some (ty, []) => Some (flat_map (path_ref [L "types"]) (ty_refs ty))
                 | _ => None end in
-  SL [SA (add_types_prefix2 (Render.render t));
+  SL [SA (add_types_prefix2 (render7 t));
       sx_opt (fun l => SL (map sx_ref l)) shape;
       sx_opt (fun l => SL (map sx_ref l)) parsed;
       sx_bool (garbage [] t)].
